@@ -361,6 +361,50 @@ def ev_mid_failures(p, keep):
     return 'done'
 
 
+def ev_copies(p, keep):
+    """copy.deepcopy and a pickle round trip of frames whose tables are
+    dict / list subclasses: the copies are handed to the aliasing oracle
+    (a deep copy shares nothing mutable with its original) and changed in
+    place, which must leave the original's encoding alone."""
+    import collections
+    import copy
+    import pickle
+
+    class Headers(dict):
+        pass
+
+    class Items(list):
+        pass
+
+    def table():
+        return collections.OrderedDict([
+            ('z', 1), ('a', collections.defaultdict(list, {'l': Items([1])})),
+            ('h', Headers(k=bytearray(b'v')))])
+    out = []
+    for build in (
+            lambda: p.commands.Queue.Declare(queue='q', arguments=table()),
+            lambda: p.header.ContentHeader(0, 3, p.commands.Basic.Properties(
+                app_id='a', headers=table())),
+            lambda: p.commands.Queue.Declare(
+                queue='q', arguments={'plain': {'n': [1]}, 'o': table()})):
+        o = build()
+        keep(o)
+        before = p.frame.marshal(o, 1).hex()
+        for how in ('deepcopy', 'pickle'):
+            try:
+                c = copy.deepcopy(o) if how == 'deepcopy' else \
+                    pickle.loads(pickle.dumps(o, 2))
+            except Exception as exc:  # noqa
+                out.append([how, 'not supported', type(exc).__name__])
+                continue
+            if how == 'deepcopy':
+                keep(c)
+            same = p.frame.marshal(c, 1).hex() == before
+            mutate_all(c, how)
+            out.append([how, same, p.frame.marshal(o, 1).hex() == before])
+    return out
+
+
 def ev_bare_base_classes(p, keep):
     """The mapping / codec interface used on the bare base classes and on an
     application subclass (first-use side effects on shared class state)."""
@@ -436,6 +480,7 @@ EVENTS = [
     ('marshal invalid after setattr', ev_marshal_invalid),
     ('refused / failed mid-container operations', ev_mid_failures),
     ('bare base classes and an application subclass', ev_bare_base_classes),
+    ('deep copies and pickles of frames with table subclasses', ev_copies),
     # equal-but-distinct arguments (a memoised encoder conflates them)
     ('encode Decimal 1.0', lambda p, keep: p.encode.field_table(
         {'d': [A.D('1.0'), A.D('0')]}).hex()),
